@@ -331,7 +331,7 @@ static ssize_t ck_out_write(void *cookie, const char *buf, size_t n) {
   size_t take = n;
   if (a && (a->ans == ANS_FAIL || a->ans == ANS_SHORT)) {
     note_fired(kind);
-    take = a->ans == ANS_FAIL ? 0 : std::min<size_t>(n, (size_t)std::max(0L, a->arg));
+    take = a->ans == ANS_FAIL ? 0 : std::min<size_t>(n ? n - 1 : 0, (size_t)std::max(0L, a->arg));  // strictly short
     os->failed = true;
     os->fail_errno = a->err ? a->err : ENOSPC;
   }
@@ -917,7 +917,7 @@ extern "C" FILE *__wrap_fopen(const char *path, const char *mode) {
 extern "C" size_t __wrap_fwrite(const void *ptr, size_t size, size_t n, FILE *f) {
   if (!in_lib() || G.ostreams.find(f) == G.ostreams.end()) return __real_fwrite(ptr, size, n, f);  // diagnostics on stderr etc.
   const EnvAns *a = answer(K_FWRITE);
-  if (a && (a->ans == ANS_FAIL || a->ans == ANS_SHORT)) {
+  if (a && (a->ans == ANS_FAIL || a->ans == ANS_SHORT) && size * n > 0) {  // nothing to refuse in an empty write
     note_fired(K_FWRITE);
     size_t take = a->ans == ANS_FAIL ? 0 : std::min<size_t>(n ? n - 1 : 0, (size_t)std::max(0L, a->arg));
     size_t r = take ? __real_fwrite(ptr, size, take, f) : 0;
